@@ -1,6 +1,9 @@
 package main
 
 import (
+	"github.com/goblimey/go-ntrip/jsonconfig"
+	fileHandler "github.com/goblimey/go-ntrip/file_handler"
+	"bytes"
 	"path/filepath"
 	"os/exec"
 	"bufio"
@@ -163,7 +166,11 @@ func runHistory(w *tr.Writer, rng *rand.Rand, T time.Time, base time.Time, obs [
 			frames[i] = msmFrame(rng, o.mt, tsOf(o.c, o.u))
 		}
 	}
-	for _, path := range []string{"getmessage", "stream"} {
+	paths := []string{"getmessage", "stream"}
+	if rng.Intn(5) == 0 || src == "boundary" {
+		paths = append(paths, "filehandler") // through file_handler.Handle with a non-zero end-of-file tolerance, as a live application does
+	}
+	for _, path := range paths {
 		level := slog.LevelDebug
 		if rng.Intn(2) == 0 {
 			level = slog.LevelInfo
@@ -175,6 +182,33 @@ func runHistory(w *tr.Writer, rng *rand.Rand, T time.Time, base time.Time, obs [
 				m, err := h.GetMessage(frames[i])
 				if o.noise == nil {
 					record(w, o, m, err, base)
+				}
+			}
+			continue
+		}
+		if path == "filehandler" {
+			var all []byte
+			for _, f := range frames {
+				all = append(all, f...)
+			}
+			mc := make(chan handler.Message, 4)
+			fh := fileHandler.New(mc, &jsonconfig.Config{TimeoutOnEOFMilliSeconds: 30, WaitTimeOnEOFMilliseconds: 3})
+			go fh.Handle(T, bufio.NewReader(bytes.NewReader(all)))
+			i := 0
+			for m := range mc {
+				mm := m
+				if i < len(obs) && obs[i].noise == nil {
+					var err error
+					if mm.ErrorMessage != "" {
+						err = errString(mm.ErrorMessage)
+					}
+					record(w, obs[i], &mm, err, base)
+				}
+				i++
+			}
+			for ; i < len(obs); i++ {
+				if obs[i].noise == nil {
+					record(w, obs[i], nil, nil, base)
 				}
 			}
 			continue
